@@ -330,15 +330,17 @@ def _fmt(t, depth=0):
 def agreement(chk, prog, config="default"):
     alloc_k = prog.seed_n.get("gc_ptr::GcPtr::alloc")
     slots, inits = prog.vtable_slots()
-    dealloc_c = slots.get(2)
+    from gcv import rules_prims
+    dealloc_c = slots.get(rules_prims._slot_index(prog, "dealloc"))
     if not chk.anchor("gc_ptr::GcPtr::alloc", bool(alloc_k)) or not chk.anchor("GcVtable.dealloc slot", dealloc_c in prog.seed_n):
         return
     ip = Interp(prog, prims=term_prims(prog), opaque_call=_opaque_trait, strict=True)
     ip.lenient_std = True
     try:
         a_outs = [o for o in ip.run(alloc_k[0], [("sym", "ptr_meta")], State()) if o.kind == "return"]
-        d_outs = [o for o in ip.run(prog.seed_n[dealloc_c][0], [adt("closure:x", 0, ()), ("sym", "value_ptr")], State())
-                  if o.kind == "return"]
+        # the slot holds a closure (environment first) or a named function
+        d_args = ([adt("closure:x", 0, ())] if "{closure" in dealloc_c else []) + [("sym", "value_ptr")]
+        d_outs = [o for o in ip.run(prog.seed_n[dealloc_c][0], d_args, State()) if o.kind == "return"]
     except (interp.Unmodelled, interp.InterpError, KeyError, IndexError) as e:
         chk.inst("layout-term-agreement", "alloc-vs-dealloc[%s]" % config, False, detail="could not be analysed: %s: %s" % (type(e).__name__, e))
         return
